@@ -80,6 +80,8 @@ def _(c):
     c.ens("returns_this_calls_value", "implies(self.Xn == old(self.Xn) + 1 or not truthy(record_duplicate_data), result[0] == retval(ghost.n_calls))",
           top=True, props=["C05", "C12"])
     c.ens("returns_this_calls_sd", "implies(truthy(self.he_noise_flag), result[1] == retsd(ghost.n_calls))", top=True, props=["C05"])
+    # C10: an evaluation is accepted (counted, logged, returned) only with a positive reported SD when noise is specified
+    c.ens("accepted_sd_is_positive", "implies(truthy(self.he_noise_flag), result[1] > 0 and retsd(ghost.n_calls) > 0)", top=True, props=["C10"])
     c.ens("called_at_image_of_x", "pteq(argpt(ghost.n_calls), invt(pt(x)))", top=True, props=["C05", "C01", "C02"])
     c.ens("he_flag_kept", "truthy(self.he_noise_flag) == truthy(old(self.he_noise_flag))")
     # ---- exceptional exits (C10): the target's own exception, or ValueError for an invalid value -----------------------
